@@ -6,7 +6,7 @@ PLAN = {
     "C02": ["L02"],
     "C03": ["K03", "K12a", "L03"],
     "C04": ["K04a", "K04c", "K16", "L04"],
-    "C05": ["L05"],
+    "C05": ["L05", "L05b"],
     "C06": ["K06", "L06"],
     "C07": ["L07"],
     "C08": ["L08"],
